@@ -61,15 +61,19 @@ type Program struct {
 	Scenario     string     `json:"scenario,omitempty"`
 	NoLin        bool       `json:"nolin,omitempty"`
 	NoFeedOracle bool       `json:"nofeedoracle,omitempty"`
+	// E3 (crash) programs: -1 = enumerate every I/O boundary, otherwise the one crash point to run
+	CrashAt int  `json:"crashat,omitempty"`
+	Torn    bool `json:"torn,omitempty"`
 }
 
 type RunStats struct {
-	Ops        int            `json:"ops"`
-	Cells      map[string]int `json:"cells,omitempty"` // prior state × op × outcome
-	Probes     map[string]int `json:"probes,omitempty"`
-	NonTrivial bool           `json:"nontrivial"`
-	SimSeconds float64        `json:"sim_seconds"`
-	Shape      string         `json:"shape,omitempty"`
+	Ops         int            `json:"ops"`
+	Cells       map[string]int `json:"cells,omitempty"` // prior state × op × outcome
+	Probes      map[string]int `json:"probes,omitempty"`
+	NonTrivial  bool           `json:"nontrivial"`
+	SimSeconds  float64        `json:"sim_seconds"`
+	Shape       string         `json:"shape,omitempty"`
+	CrashPoints int            `json:"crash_points,omitempty"`
 }
 
 type RunResult struct {
@@ -77,6 +81,8 @@ type RunResult struct {
 	Stats     RunStats   `json:"stats"`
 	Trouble   string     `json:"trouble,omitempty"` // machinery problem (not a violation)
 	Log       []string   `json:"log,omitempty"`
+	CrashAt   int        `json:"crash_at,omitempty"`
+	Torn      bool       `json:"torn,omitempty"`
 }
 
 type e1 struct {
